@@ -53,6 +53,10 @@ func init() {
 			}
 			add([]string{k}, []int{r}, []int{0}, 1, 1)
 		}
+		// a supplied tensor that is a non-contiguous view (a column window of a larger tensor)
+		for _, k := range []string{"DD", "DU", "UD", "FD", "DF"} {
+			p.Jobs = append(p.Jobs, Job{Harness: "gonnx.H_C13", Case: map[string]interface{}{"kinds": []string{k}, "sup": []int{2}, "init": []int{0}, "extra": 0, "mutate": 0, "bare": 0, "view": 1}})
+		}
 		// two declared inputs
 		ks := kindStrings(maxRank2)
 		for _, a := range ks {
